@@ -133,6 +133,10 @@ def fx : XPos → Expr → Bool
   | _, .joinedStr _ => false
   | _, .attribute e _ => fx .plain e
   | _, .subscript e s => fx .plain e && fx .sub s
+  -- NOTE (`x[*a]`): at position `.sub` a bare `Starred` is admitted because the parser as it is reads `x[*a]` as
+  -- `Subscript(x, Starred a)` (CPython: `Tuple [Starred a]`).  If parseSubscriptList is changed to build the 1-tuple,
+  -- this arm must exclude `q = .sub` (and `sub_of` in InductionX.lean loses its `subOK_starred` case; `x[*a,]` is
+  -- `subOK_tuple`).
   | q, .starred e => (q != .plain) && fx .plain e
   | _, .list es => fxList .elem es
   | q, .tuple es => fxList q.tupleElem es
